@@ -154,7 +154,7 @@ def rnd_step(rnd, ops=TEXT_OPS, surrogate_p=0.0, typed=False, encoded_p=0.0):
     if op == "with_port":
         return {"op": op, "v": tv_of(rnd.choice([None, 0, 1, 80, 443, 21, 8080, 65535, 65536, -1, True, False, 1.0, "80", 10 ** 10]))}
     if op == "without_query_params":
-        return {"op": op, "keys": [T(rnd.choice(["a", "b", "c", "", "a b", "x", "é"])) for _ in range(rnd.choice((0, 1, 2)))]}
+        return {"op": op, "keys": [T(rnd.choice(["a", "b", "c", "", "a b", "x", "é", "a;b", "k", "ké", "q", "y"])) for _ in range(rnd.choice((0, 1, 2)))]}
     return {"op": op}
 
 
